@@ -69,7 +69,9 @@ def flat_points(d):
 
 
 def mi_value(spec):
-    """(argument for collocate, exact ns as the generator means it)"""
+    """(argument for collocate, exact ns as the generator means it); None = spatial search only"""
+    if spec is None:
+        return None, None
     k, v = spec["kind"], spec["v"]
     if k == "num":
         return v, int(round(v * 10 ** 6)) * 1000
@@ -90,6 +92,7 @@ class Recorder:
         self.binned_times = []
         self.sliced_times = []
         self.nbuilt = 0
+        self.alias_changed = 0   # queries on an index whose remembered coordinates differ from those at construction
 
 
 def install(rec):
@@ -101,12 +104,16 @@ def install(rec):
         def __init__(self, lat, lon, **kw):
             super().__init__(lat, lon, **kw)
             self._kw = kw
+            # the coordinates as they were when the tree was built (index.lat / index.lon may alias caller buffers)
+            self._lat0, self._lon0 = np.array(self.lat, copy=True), np.array(self.lon, copy=True)
             rec.events.append(("build", self, None if self.shuffler is None else [int(x) for x in self.shuffler]))
             rec.nbuilt += 1
             self.tree = g.TreeProxy(self.tree)
 
         def query(self, lat, lon, r, **kw):
             n0 = len(self.tree.calls)
+            if not (np.array_equal(self.lat, self._lat0, equal_nan=True) and np.array_equal(self.lon, self._lon0, equal_nan=True)):
+                rec.alias_changed += 1
             res = super().query(lat, lon, r, **kw)
             call = self.tree.calls[n0]
             J, D = call["res"]
@@ -188,6 +195,8 @@ def oracle(call, R):
     _, mi_ns = mi_value(call["mi"])
     rk = g.true_km(call["md"])
     lo, hi = call.get("start"), call.get("end")
+    if mi_ns is None:       # spatial-only search: no time criterion (the code then ignores start/end as well)
+        lo = hi = None
 
     def ok(x):
         return x[2] is not None and x[3] is not None and (lo is None or x[1] >= lo) and (hi is None or x[1] <= hi)
@@ -202,7 +211,7 @@ def oracle(call, R):
     tp = np.array([x[1] for x in P], dtype="int64")[:, None]
     ts = np.array([x[1] for x in S], dtype="int64")[None, :]
     DT = np.abs(tp - ts)
-    tok = DT < mi_ns
+    tok = (DT < mi_ns) if mi_ns is not None else np.ones_like(DT, dtype=bool)
     for i, j in zip(*np.nonzero(tok & (D <= rkl + margin))):
         key = (P[i][0], S[j][0])
         val = (int(DT[i, j]), float(D[i, j]))
@@ -225,6 +234,8 @@ def sanitize_layout(call):
     """the unlabelled layout is inside the property's precondition ("uniquely labelled") only when the selection
     by label is the identity, i.e. when the common time window keeps every point of that dataset"""
     _, mi_ns = mi_value(call["mi"])
+    if mi_ns is None:
+        return
     bf = call.get("bin_factor", 1)
     if bf < 1 and (mi_ns * bf < 1000 or (mi_ns * bf) % 1000 != 0):
         call["bin_factor"] = 1      # a bin width below / off the timedelta resolution is not a meaningful tuning value
@@ -248,23 +259,40 @@ def sanitize_layout(call):
             d["layout"] = "c"
 
 
-def run_call(ck, col, rec, call, R, state, use_model, lines_cb):
-    """one collocate() on the Collocator `col`.  state: dict(built=int) per Collocator."""
+def result_map(res):
+    """{(primary id, secondary id): (interval s, distance km)} of a collocate() result (None -> {})"""
+    if res is None:
+        return {}
+    P = res["Collocations/pairs"].values
+    ip, isec = res["primary/id"].values, res["secondary/id"].values
+    iv = res["Collocations/interval"].values.astype("int64")
+    dist = res["Collocations/distance"].values
+    return {(int(ip[a]), int(isec[b])): (int(iv[k]), float(dist[k])) for k, (a, b) in enumerate(zip(P[0].tolist(), P[1].tolist()))}
+
+
+def run_call(ck, col, rec, call, R, state, use_model, lines_cb, live=None, report=None, fresh_check=False):
+    """one collocate() on the Collocator `col`.  state: dict(built=int) per Collocator.
+    live = (primary, secondary) xarray objects to pass instead of fresh ones built from the case (in-place
+    mutation histories); report = the case to store with a violation; fresh_check = also compare with what a
+    fresh Collocator returns for the same data."""
     sanitize_layout(call)
     from typhon.geographical import to_kilometers
     from typhon.utils.timeutils import to_timedelta
     rec.events.clear()
     rec.bins.clear()
     rec.binned_times, rec.sliced_times = [], []
+    rec.alias_changed = 0
     mi_arg, _ = mi_value(call["mi"])
     kw = dict(max_interval=mi_arg, max_distance=call["md"], bin_factor=call.get("bin_factor", 1),
               magnitude_factor=call.get("magnitude_factor", 10), leaf_size=call.get("leaf_size", 40))
+    if mi_arg is None:
+        del kw["max_interval"]
     if call.get("start") is not None:
         kw["start"] = when(call["start"])
     if call.get("end") is not None:
         kw["end"] = when(call["end"]) if call.get("end_as", "dt") == "dt" else str(when(call["end"]))
     np.random.seed(call.get("seed", 0))
-    pds, sds = to_dataset(call["p"]), to_dataset(call["s"])
+    pds, sds = live if live is not None else (to_dataset(call["p"]), to_dataset(call["s"]))
     err = None
     res = None
     try:
@@ -272,7 +300,27 @@ def run_call(ck, col, rec, call, R, state, use_model, lines_cb):
     except Exception as e:
         err = exc_name(e)
         errtxt = f"{type(e).__name__}: {e}"
-    slim = {k: v for k, v in call.items()}
+    slim = report if report is not None else {k: v for k, v in call.items()}
+    if rec.alias_changed:
+        ck.count("diag/index-coordinates-changed-after-construction")
+    if fresh_check and err is None:
+        # what a brand-new Collocator answers for exactly this data (recording state untouched)
+        snap = (list(rec.events), list(rec.bins), rec.binned_times, rec.sliced_times, rec.nbuilt)
+        from typhon.collocations import Collocator as _C
+        np.random.seed(call.get("seed", 0))
+        try:
+            fres = result_map(_C().collocate(to_dataset(call["p"]), to_dataset(call["s"]), **kw))
+        except Exception as e:
+            fres = None
+        rec.events[:], rec.bins[:] = snap[0], snap[1]
+        rec.binned_times, rec.sliced_times, rec.nbuilt = snap[2], snap[3], snap[4]
+        if fres is not None:
+            mine = result_map(res)
+            if set(mine) != set(fres) or any(mine[k][0] != fres[k][0] or abs(mine[k][1] - fres[k][1]) > 1e-9 * max(1.0, fres[k][1]) for k in mine):
+                diff = sorted(set(mine) ^ set(fres))[:3] or [k for k in mine if mine[k] != fres[k]][:3]
+                ck.violation(classify(call), f"a reused Collocator answers differently from a fresh one for the same data: "
+                             f"{len(mine)} vs {len(fres)} collocations, e.g. {diff}", slim)
+            ck.count("fresh-collocator-comparisons")
     if use_model:
         check_cut(ck, rec, slim)
     if call.get("_expect_binned") and not rec.bins and err is None:
@@ -281,7 +329,8 @@ def run_call(ck, col, rec, call, R, state, use_model, lines_cb):
     sig = None
     npts = len(flat_points(call["p"])), len(flat_points(call["s"]))
     kind = ("grid" if call["p"].get("grid") or call["s"].get("grid") else "linear") + \
-           ("/binned" if rec.bins else "/direct") + ("/hist" if state.get("calls", 0) else "")
+           ("/binned" if rec.bins else "/direct") + ("/hist" if state.get("calls", 0) else "") + \
+           ("/spatial-only" if call["mi"] is None else "") + ("/inplace" if live is not None else "")
     state["calls"] = state.get("calls", 0) + 1
     # ---- oracle on the real outcome
     got = None
@@ -318,8 +367,8 @@ def run_call(ck, col, rec, call, R, state, use_model, lines_cb):
             for pr in problems:
                 ck.violation(classify(call), pr, slim)
         nontriv = len(must) > 0 and (npts[0] * npts[1] > len(may))
-        ck.case(key=json.dumps([call["p"]["t"][:5], call["s"]["t"][:5], str(call["md"]), str(call["mi"]), state["calls"]]) if nontriv else None,
-                kind=kind, sample={"n_primary": npts[0], "n_secondary": npts[1], "mi": call["mi"]["v"], "md": call["md"],
+        ck.case(key=json.dumps([call["p"]["t"][:5], call["s"]["t"][:5], str(call["md"]), str(call["mi"]), state["calls"], bool(live)]) if nontriv else None,
+                kind=kind, sample={"n_primary": npts[0], "n_secondary": npts[1], "mi": (call["mi"] or {}).get("v"), "md": call["md"],
                                    "pairs": len(got), "binned_groups": len(rec.bins)})
         missing = sorted(set(must) - set(got))
         extra = sorted(set(got) - set(may))
@@ -348,15 +397,14 @@ def run_call(ck, col, rec, call, R, state, use_model, lines_cb):
     for ev in rec.events:
         if ev[0] == "build":
             ix = ev[1]
-            ix._codes = [codes.code(a, b) for a, b in zip(ix.lat, ix.lon)]
+            ix._codes = [codes.code(a, b) for a, b in zip(ix._lat0, ix._lon0)]
             lines.append(f"shuf {k} " + (",".join(map(str, ev[2])) if ev[2] else "-"))
             k += 1
     nb = k - state.get("built", 0)
     for ev in rec.events:
         if ev[0] == "query":
             ix = ev[1]
-            if not hasattr(ix, "_codes") or True:
-                ix._codes = [codes.code(a, b) for a, b in zip(ix.lat, ix.lon)]
+            ix._codes = [codes.code(a, b) for a, b in zip(ix._lat0, ix._lon0)]
             tp = [ix._codes[j] for j in ix.shuffler] if ix.shuffler is not None else ix._codes
             qp = [codes.code(a, b) for a, b in zip(ev[2], ev[3])]
             J, D = ev[4], ev[5]
@@ -378,8 +426,11 @@ def run_call(ck, col, rec, call, R, state, use_model, lines_cb):
                 rows.append(f"{d['labels'][i]}:{t}:{c}/{d['ids'][i]}")
         lines.append(f"ds {name} " + " ".join(rows))
     try:
-        td = to_timedelta(mi_arg, numbers_as="seconds")
-        mi_model = (td // dt.timedelta(microseconds=1)) * 1000
+        if mi_arg is None:
+            mi_model = "-"
+        else:
+            td = to_timedelta(mi_arg, numbers_as="seconds")
+            mi_model = (td // dt.timedelta(microseconds=1)) * 1000
         rb = bits(float(to_kilometers(call["md"])))
     except Exception:
         state["built"] = k
@@ -498,7 +549,7 @@ def run_binned_direct(ck, rec, case, R, use_model, lines_cb):
     for ev in rec.events:
         if ev[0] == "query":
             ix = ev[1]
-            cs = [codes.code(a, b) for a, b in zip(ix.lat, ix.lon)]
+            cs = [codes.code(a, b) for a, b in zip(ix._lat0, ix._lon0)]
             tp = [cs[j] for j in ix.shuffler]
             qp = [codes.code(a, b) for a, b in zip(ev[2], ev[3])]
             J, Dd = ev[4], ev[5]
@@ -808,6 +859,86 @@ def run_history(ck, rec, calls, R, use_model, batch, follow_up=None):
         batch.add(all_lines, cb_all)
 
 
+# ---------------------------------------------------------------- histories with in-place mutation
+def gen_inplace_history(rng, R):
+    """calls on ONE Collocator where the caller keeps its numpy buffers / Dataset objects and changes positions IN
+    PLACE between the calls (spatial-only search mostly: nothing in collocate() copies the data then)"""
+    km = rng.choice([5.0, 30.0, 100.0])
+    n, m = rng.choice([(rng.randint(8, 40), rng.randint(2, 7)), (rng.randint(2, 7), rng.randint(8, 40)),
+                       (rng.randint(3, 12), rng.randint(3, 12))])
+    mi = None if rng.random() < 0.75 else rng.choice([{"kind": "str", "v": "10 s", "ns": 10 ** 10}, {"kind": "num", "v": 2}])
+    p, s = gen_pair(rng, n, m, 10 ** 10, km, R, 10 ** 9, nan_rate=rng.choice([0, 0, 0, 0.15]))
+    if rng.random() < 0.5:
+        p, s = s, p
+    for d in (p, s):
+        d["labels"] = list(range(len(d["t"])))
+    steps = [{"mut": [], "rewrap": [], "swap": False}]
+    for _ in range(rng.randint(1, 3)):
+        muts = []
+        for side, d in (("p", p), ("s", s)):
+            if rng.random() < 0.6:
+                for i in rng.sample(range(len(d["t"])), rng.randint(1, max(1, len(d["t"]) // 2))):
+                    other = s if side == "p" else p
+                    j = rng.randrange(len(other["t"]))
+                    base = (other["lat"][j], other["lon"][j])
+                    if base[0] is None or base[1] is None:
+                        base = (rng.uniform(-60, 60), rng.uniform(-170, 170))
+                    f = rng.choice([0.0, 0.5, 0.9, 1.1, 3.0, 40.0])
+                    th = g.angle_for("minkowski", f * km, R)
+                    pos = g.destination(base[0], base[1], th, rng.uniform(0, 6.28)) if f else base
+                    if rng.random() < 0.05:
+                        pos = (None, pos[1])
+                    muts.append({"side": side, "i": i, "lat": pos[0], "lon": pos[1]})
+        steps.append({"mut": muts, "rewrap": [x for x in ("p", "s") if rng.random() < 0.3], "swap": rng.random() < 0.15})
+    return {"op": "inplace-history", "p": p, "s": s, "mi": mi, "md": km, "steps": steps,
+            "magnitude_factor": rng.choice([10, 10, 1, 100]), "leaf_size": rng.choice([40, 2]), "seed": rng.randrange(2 ** 31)}
+
+
+def run_inplace_history(ck, rec, case, R, use_model, batch):
+    import xarray as xr
+    from typhon.collocations import Collocator
+    col = Collocator()
+    state = {"built": 0, "calls": 0}
+    cur = {k: json.loads(json.dumps(case[k])) for k in ("p", "s")}      # current values (for oracle / model / fresh run)
+    bufs, dsets = {}, {}
+
+    def wrap(k):
+        b = bufs[k]
+        return xr.Dataset({"time": ("c", b["t"]), "lat": ("c", b["lat"]), "lon": ("c", b["lon"]), "id": ("c", b["ids"])},
+                          coords={"c": b["labels"]})
+    for k in ("p", "s"):
+        d = cur[k]
+        bufs[k] = {"t": (T_EPOCH + np.array(d["t"], dtype="int64").astype("timedelta64[ns]")).astype("datetime64[ns]"),
+                   "lat": np.array([np.nan if v is None else v for v in d["lat"]], dtype=float),
+                   "lon": np.array([np.nan if v is None else v for v in d["lon"]], dtype=float),
+                   "ids": np.array(d["ids"], dtype="int64"), "labels": np.array(d["labels"], dtype="int64")}
+        dsets[k] = wrap(k)
+    all_lines, cbs = ["reset"], []
+
+    def collect(lines, cb):
+        cbs.append((len(all_lines), len(lines), cb))
+        all_lines.extend(lines)
+    for step in case["steps"]:
+        for mu in step["mut"]:          # the caller corrects positions in place
+            k, i = mu["side"], mu["i"]
+            bufs[k]["lat"][i] = np.nan if mu["lat"] is None else mu["lat"]
+            bufs[k]["lon"][i] = np.nan if mu["lon"] is None else mu["lon"]
+            cur[k]["lat"][i], cur[k]["lon"][i] = mu["lat"], mu["lon"]
+        for k in step["rewrap"]:        # a new Dataset object around the same buffers
+            dsets[k] = wrap(k)
+        a, b = ("s", "p") if step["swap"] else ("p", "s")
+        call = {"p": json.loads(json.dumps(cur[a])), "s": json.loads(json.dumps(cur[b])), "mi": case["mi"], "md": case["md"],
+                "magnitude_factor": case["magnitude_factor"], "leaf_size": case["leaf_size"], "seed": case["seed"],
+                "start": None, "end": None}
+        ck.count("inplace-history-calls")
+        run_call(ck, col, rec, call, R, state, use_model, collect, live=(dsets[a], dsets[b]), report=case, fresh_check=True)
+    if use_model and cbs:
+        def cb_all(out):
+            for x, n, cb in cbs:
+                cb(out[x:x + n])
+        batch.add(all_lines, cb_all)
+
+
 def explore(ck, n_calls, n_hist, n_binned, n_big, max_n, use_model=True):
     import warnings
     warnings.filterwarnings("ignore")
@@ -829,6 +960,8 @@ def explore(ck, n_calls, n_hist, n_binned, n_big, max_n, use_model=True):
                 run_history(ck, rec, [sw], R, use_model, batch)
         for _ in range(n_hist):
             run_history(ck, rec, gen_history(rng, R, min(max_n, 60)), R, use_model, batch)
+        for _ in range(n_hist):
+            run_inplace_history(ck, rec, gen_inplace_history(rng, R), R, use_model, batch)
         for _ in range(max(1, n_calls // 5)):
             call = gen_call(rng, R, 60)
             npos = rng.choice([2, 3, 5])
@@ -855,6 +988,8 @@ def explore(ck, n_calls, n_hist, n_binned, n_big, max_n, use_model=True):
 def run_corpus_case(ck, rec, c, R, use_model, batch):
     if c.get("op") == "binned":
         run_binned_direct(ck, rec, c, R, use_model, batch.add)
+    elif c.get("op") == "inplace-history":
+        run_inplace_history(ck, rec, c, R, use_model, batch)
     elif "history" in c:
         run_history(ck, rec, c["history"], R, use_model, batch)
     else:
